@@ -10,9 +10,9 @@ CLAIMED = {
  'C06': ('proof', 'structural Coq lemmas: every accessor/constructor/minor/col/row/transpose as entry moves, M*v and affine transforms as sums, 11 types x 3 backends', 'trusted: column-major entry view in harness/props/C06.py'),
  'C07': ('proof', 'identity of the +fma and default translations except mul_add (both the fused primitive, C01); C03/C04 lemma families for three backends against common formulas; 4-build differential run', 'partial: LLVM not contracting FP ops is observed, not modelled; re-association slack observed not derived'),
  'C08': ('proof', 'non-interference lemmas (all Ops with Rust integer semantics): result modulo hidden lanes is the same for two independent hidden-lane contents', 'partial: lemmas not decided within the long per-lemma limit are listed in the evidence'),
- 'C09': ('proof', 'algebraic Coq lemmas: axis-angle = Rodrigues / (a sin, cos), single-axis rotations, all 24 Euler orders as products of elementary rotations / quaternions; RotAlg.v (orthonormal, det 1, quaternion-matrix agreement)', 'partial: extraction direction (to_euler ...) and float error near singularities are not proved; sin/cos uninterpreted (odd/even); no bit-level correspondence for trigonometric results'),
+ 'C09': ('proof', 'algebraic Coq lemmas: axis-angle = Rodrigues / (a sin, cos), single-axis rotations, all 24 Euler orders as products of elementary rotations / quaternions; RotAlg.v (orthonormal, det 1, quaternion-matrix agreement)', 'partial: the extraction direction (to_euler ...) is not proved - crate round trips with the epsilon/distance tolerance only; sin/cos uninterpreted (odd/even); no bit-level correspondence for trigonometric results'),
  'C10': ('proof', 'algebraic Coq lemmas: every SRT constructor = translation * rotation * scale entries, 10 types x 3 backends', 'partial: decomposition (to_scale_rotation_translation) is differential only'),
- 'C11': ('proof', 'algebraic Coq lemmas: perspective_*/orthographic_* = documented matrices, project/transform = M(p,1)/w; frustum facts in ProjAlg.v', 'partial: look_to/look_at are differential only'),
+ 'C11': ('proof', 'algebraic Coq lemmas: perspective_*/orthographic_* = documented matrices, project/transform = M(p,1)/w, look_to/look_at view matrices of the matrix and affine types = the documented rows and translation; frustum facts in ProjAlg.v', 'partial: Quat::look_to_* is differential only'),
  'C12': ('proof', 'algebraic Coq lemmas: lerp = a(1-s)+bs, midpoint, any_orthonormal_vector/pair = the Duff et al. construction (laws in InterpAlg.v), clamp_length/_min/_max and move_towards on every path', 'partial: slerp, quaternion lerp, rotate_towards, from_rotation_arc, any_orthogonal_vector are differential (and C18 panic-freedom) only'),
  'C13': ('proof', 'structural Coq lemmas (all Ops): every table method of the 27 integer vector types = lane-wise/left-fold primitive; IntSpec.v ties compare-select forms to min/max/clamp/positions over Z', 'trusted: ZInt semantics in Sem.v validated differentially'),
  'C14': ('proof', 'structural Coq lemmas (all Ops): as_*, From, TryFrom, mask-to-number, pair/extend/truncate conversions lane by lane', 'trusted: cast semantics of Sem.v validated on boundary values'),
